@@ -190,7 +190,9 @@ def gen_machine_program(r: Rng, feat: Dict[str, bool], size: int) -> Dict:
                ("wait", 4 if feat.get("wait") else 0), ("halt", 3 if feat.get("halt") else 0),
                ("off", 2 if feat.get("off") else 0), ("ir", 2 if feat.get("ir") else 0),
                ("call", 4 if n_sub else 0), ("pushpop", 3 if feat.get("imr_writes") and depth == 0 else 0),
-               ("loop", 3 if depth == 0 and not in_loop else 0)]
+               ("loop", 3 if depth == 0 and not in_loop else 0),
+               ("lcd", 6 if feat.get("lcd") else 0), ("kil", 3 if feat.get("kil_reads") else 0),
+               ("strobe", 2 if feat.get("kil_reads") else 0)]
         kind = r.weighted([p for p in pal if p[1] > 0])
         if kind == "nop":
             a.op("NOP")
@@ -244,6 +246,30 @@ def gen_machine_program(r: Rng, feat: Dict[str, bool], size: int) -> Dict:
             else:
                 a.op("CALL", 0, 0, tag=f"CALL:{idx}")
                 patches.append((off, "call", idx))
+        elif kind == "lcd":
+            # HD61202 traffic through either window; low nibble = R/W, D/I, chip select
+            base = r.choice([0x2000, 0xA000])
+            if r.chance(3, 4):
+                nib = r.choice([0x0, 0x4, 0x8, 0x2, 0x6, 0xA, 0xC])      # writes (instruction / data)
+                if nib & 2:
+                    val = r.below(256)
+                else:
+                    val = r.choice([0x3F, 0x3E, 0x40 | r.below(64), 0xB8 | r.below(8), 0xC0 | r.below(64)])
+                if not in_loop:
+                    a.op("MV_A", val)
+                a.lmn("ST_A", base | nib | (r.below(16) << 4 if r.chance(1, 4) else 0), tag="LCD_W")
+            elif not in_loop:
+                nib = r.choice([0x5, 0x9, 0x7, 0xB, 0x1, 0x3, 0xD])      # reads (status / data)
+                a.lmn("LD_A", base | nib, tag="LCD_R")
+            else:
+                a.op("NOP")
+        elif kind == "kil":
+            if in_loop:
+                a.op("NOP")
+            else:
+                a.op("MV_A_KIL")
+        elif kind == "strobe":
+            a.op("MV_KOL", r.choice([0xFF, 0x00, 0x01, 0x02, 0x10, 0x55]))
         elif kind == "pushpop":
             a.op("PUSHU_IMR")
             for _ in range(r.range(1, 3)):
